@@ -73,9 +73,71 @@ class Ctx:
         self.t0 = time.time()
         self.current_case = None
         self.deadline = None
+        self._guards = []   # [array, digest, label, case]: caller-owned data the observed code must leave unchanged
+        self._retained = []  # [array, digest, label, case, age]: results of earlier calls that later calls must not change
 
     # ---- bookkeeping -------------------------------------------------------------------
+    # ---- write sanitizer: caller-owned operands and earlier results (DESIGN 3.4) ---------
+    @staticmethod
+    def _arrays_of(obj, depth=0):
+        out = []
+        if isinstance(obj, np.ndarray):
+            out.append(obj)
+        elif isinstance(obj, (tuple, list)) and depth < 4:
+            for x in obj:
+                out.extend(Ctx._arrays_of(x, depth + 1))
+        elif hasattr(obj, "flatten") and hasattr(obj, "_matmat"):
+            try:
+                out.extend(a for a in obj.flatten()[0] if isinstance(a, np.ndarray))
+            except Exception:  # noqa  (an operator that cannot be flattened is simply not tracked)
+                pass
+        return out
+
+    @staticmethod
+    def _digest(a):
+        return hashlib.blake2b(a.tobytes(), digest_size=12).hexdigest() + f"|{a.dtype}|{a.shape}"
+
+    def guard(self, *objs, label="operand"):
+        """Arrays (or the array leaves of operators) that belong to the caller: whatever is called while they are tracked must
+        leave their bytes alone.  Tracked over the next two begin_case() calls (a monitor may build its operands before or
+        after it announces the case); a change is attributed to the case that was running when it was noticed."""
+        seen = {id(g[0]) for g in self._guards}
+        for a in self._arrays_of(objs):
+            if id(a) not in seen and a.size <= 4_000_000:
+                self._guards.append([a, self._digest(a), label, 0])
+                seen.add(id(a))
+
+    def retain(self, *objs, label="result"):
+        """Results handed back by an earlier call: they are the caller's from then on, later calls must not change them
+        (re-verified at the start of the next three cases and by verify_guards())."""
+        for a in self._arrays_of(objs):
+            if a.size <= 4_000_000:
+                self._retained.append([a, self._digest(a), label, 0])
+
+    def verify_guards(self, site="-", age=False):
+        for g in self._guards:
+            a, dg, label, _ = g
+            now = self._digest(a)
+            self.check("operands-left-unchanged", now == dg, site=site, preds={"what": label},
+                       detail={"shape": list(a.shape), "dtype": str(a.dtype), "column_major": bool(a.flags.f_contiguous and not a.flags.c_contiguous)})
+            g[1] = now  # (reported once)
+        for r in self._retained:
+            a, dg, label, n = r
+            now = self._digest(a)
+            self.check("earlier-results-left-unchanged", now == dg, site=site, preds={"what": label},
+                       detail={"shape": list(a.shape), "dtype": str(a.dtype), "cases_later": n})
+            r[1] = now
+        if age:
+            for g in self._guards:
+                g[3] += 1
+            self._guards = [g for g in self._guards if g[3] < 2]
+            for r in self._retained:
+                r[3] += 1
+            self._retained = [r for r in self._retained if r[3] <= 3]
+
     def begin_case(self, case, sig=None, nontrivial=True):
+        if self._guards or self._retained:
+            self.verify_guards(site="after-the-case", age=True)
         self.cases += 1
         self.current_case = case
         if sig is not None and nontrivial:
@@ -117,6 +179,8 @@ class Ctx:
             return Err(e, innermost_repo_frame(e, self.repo))
 
     def dump(self):
+        if self._guards or self._retained:
+            self.verify_guards(site="after-the-case", age=True)
         return {
             "prop": self.prop, "tier": self.tier, "seed": self.seed, "shard": self.shard,
             "evals": dict(self.evals), "fail_counts": dict(self.fail_counts), "fails": self.fails,
